@@ -208,7 +208,8 @@ HCIcnbit_decode(compinfo_t *info, int32 length, uint8 *buf)
                     rbuf2 = rbuf;          /* set temporary pointer into buffer */
                     for (j = 0; j < nbit_info->nt_size; j++, mask_info++, rbuf2++) {
                         if (mask_info->length > 0) { /* check if we need to read bits */
-                            Hbitread(info->aid, mask_info->length, &input_bits);
+                            if (Hbitread(info->aid, mask_info->length, &input_bits) != mask_info->length)
+                                HRETURN_ERROR(DFE_CDECODE, FAIL);
                             input_bits <<= (mask_info->offset - mask_info->length) + 1;
                             *rbuf2 |= (uint8)(mask_info->mask & (uint8)input_bits);
                             if (j == sign_byte) /* check if this is the sign byte */
@@ -298,7 +299,8 @@ HCIcnbit_encode(compinfo_t *info, int32 length, const uint8 *buf)
         if (mask_info->length > 0) {      /* check if we need to output bits */
             output_bits =
                 (uint32)(((*buf) & (mask_info->mask)) >> ((mask_info->offset - mask_info->length) + 1));
-            Hbitwrite(info->aid, mask_info->length, output_bits);
+            if (Hbitwrite(info->aid, mask_info->length, output_bits) != mask_info->length)
+                HRETURN_ERROR(DFE_CENCODE, FAIL);
         }
 
         /* advance to the next mask position */
